@@ -517,16 +517,13 @@ impl ClusterHandler for GenCommHandler<'_> {
                 let pase_sess_id =
                     matches!(sess.get_session_mode(), SessionMode::Pase { .. }).then(|| sess.id());
 
-                let fabric = state
-                    .failsafe
-                    .disarm(sess.get_session_mode(), &mut state.fabrics)?;
+                // Persist the fabric and the network settings first, and disarm the fail-safe only
+                // once they are durable: if a write fails, the command fails with the fail-safe still
+                // armed, so that its expiry rolls the configuration back (rather than leaving a fabric
+                // which is neither persisted nor rolled back)
+                let fab_idx = state.failsafe.check_disarm(sess.get_session_mode())?;
 
-                state.pase.close_comm_window(notify_mdns, notify_change)?;
-                state.sessions.remove_pase(pase_sess_id);
-                ctx.exchange().matter().transport().notify_session_removed();
-
-                // Finally, persist the fabric and the network settings, prior to sending the other party a "success" status
-                persist.store(fabric)?;
+                persist.store(state.fabrics.fabric(fab_idx)?)?;
                 ctx.networks().access(|networks| {
                     networks.set_managed(true)?;
 
@@ -534,6 +531,14 @@ impl ClusterHandler for GenCommHandler<'_> {
                         .persist_mut()
                         .store(NETWORKS_KEY, |buf| networks.save(buf))
                 })?;
+
+                state
+                    .failsafe
+                    .disarm(sess.get_session_mode(), &mut state.fabrics)?;
+
+                state.pase.close_comm_window(notify_mdns, notify_change)?;
+                state.sessions.remove_pase(pase_sess_id);
+                ctx.exchange().matter().transport().notify_session_removed();
 
                 info!("Commissioning complete, fabric and network settings persisted");
 
